@@ -35,6 +35,19 @@ pub fn pua(i: u32) -> u32 {
 // top level
 
 #[derive(Clone, Debug, Default)]
+pub struct Os2 {
+    /// table version (USE_TYPO_METRICS is honoured from version 4 on)
+    pub version: u16,
+    /// fsSelection; bit 7 (0x80) = USE_TYPO_METRICS
+    pub fs_selection: u16,
+    pub typo_ascender: i16,
+    pub typo_descender: i16,
+    pub typo_line_gap: i16,
+    pub win_ascent: u16,
+    pub win_descent: u16,
+}
+
+#[derive(Clone, Debug, Default)]
 pub struct FontSpec {
     /// maxp (version 0.5).
     pub num_glyphs: u16,
@@ -44,6 +57,8 @@ pub struct FontSpec {
     pub ascender: i16,
     pub descender: i16,
     pub line_gap: i16,
+    /// OS/2 (version 4, 96 bytes): its line metrics replace those of hhea when USE_TYPO_METRICS is set or hhea's are 0.
+    pub os2: Option<Os2>,
     /// hmtx advance per glyph (len == num_glyphs; numberOfHMetrics = num_glyphs), lsb 0.
     pub hadv: Vec<u16>,
     /// vhea + vmtx.
@@ -687,6 +702,7 @@ impl FontSpec {
             ascender: 800,
             descender: -200,
             line_gap: 0,
+            os2: None,
             hadv: (0..num_glyphs).map(Self::basic_hadv).collect(),
             vmetrics: None,
             cmap: (1..num_glyphs).map(|g| (pua(g as u32 - 1), g)).collect(),
@@ -701,6 +717,27 @@ impl FontSpec {
             glyf: None,
             post_names: false,
         }
+    }
+    /// The face's horizontal line metrics (ascender, descender) as the font's own tables define them: OS/2 typographic
+    /// metrics when OS/2 version >= 4 sets USE_TYPO_METRICS; else hhea's, where a zero falls back to OS/2 typographic and
+    /// then to the (negated, for the descender) Windows metrics.
+    pub fn line_metrics(&self) -> (i16, i16) {
+        if let Some(o) = &self.os2 {
+            if o.version >= 4 && o.fs_selection & 0x80 != 0 {
+                return (o.typo_ascender, o.typo_descender);
+            }
+        }
+        let mut a = self.ascender;
+        let mut d = self.descender;
+        if let Some(o) = &self.os2 {
+            if a == 0 {
+                a = if o.typo_ascender != 0 { o.typo_ascender } else { o.win_ascent as i16 };
+            }
+            if d == 0 {
+                d = if o.typo_descender != 0 { o.typo_descender } else { (o.win_descent as i16).wrapping_neg() };
+            }
+        }
+        (a, d)
     }
     /// The advance `basic` gives to glyph `g`.
     pub fn basic_hadv(g: u16) -> u16 {
